@@ -16,6 +16,6 @@ from sx.shims import STUBS  # noqa
 
 
 def shapes(tier, seed):
-    from .isa_templates import instr_shapes
+    from .isa_templates import instr_shapes, random_instr_shapes
     return instr_shapes(tier, seed, ['C12'], only=('t5', 't6', 't4', 't7', 't8', 't1:arg12', 't1:arg5', 't1:arg8')) \
-        + unit_encode.layouts(tier, seed, ['C12'])
+        + random_instr_shapes(tier, seed + 7, ['C12']) + unit_encode.layouts(tier, seed, ['C12'])
